@@ -134,9 +134,10 @@ def okC04 (r : Role) (m : Mon) : Tag → Bool
   | .snap trun wsClosed final => (!m.term || !trun) && (!final || !m.term || wsClosed)
   | _ => true
 
-/-- C06 (control part): payloads reach the application only after the setup callback -/
+/-- C06 (control part): payloads reach the application only after the setup callback and only once the handshake
+    has been reported complete -/
 def okC06 (m : Mon) : Tag → Bool
-  | .act .deliver | .act .deliverBuffered => m.setups == .one
+  | .act .deliver | .act .deliverBuffered => m.setups == .one && m.last == .complete
   | _ => true
 
 /-- C09 (control part): one id report at most, before setup; one setup at most, right after `approved` -/
